@@ -8,7 +8,7 @@ From Coq Require Import List ZArith Lia Bool Arith.
 From RecordUpdate Require Import RecordUpdate.
 From FV Require Import ListLemmas ListLemmas2 Kernel SrcFragments Lens World Factory.
 From FV Require FactoryInv.
-From FV Require StoreB StoreBInv StoreBOrder StoreBCap.
+From FV Require StoreB StoreBInv StoreBProps StoreBOrder StoreBCap StoreBWeak.
 Import ListNotations.
 Open Scope Z_scope.
 
@@ -595,4 +595,19 @@ Theorem capacity_respected_everywhere nodes edges order n :
 Proof.
   intros H i ed E.
   apply (store_invariant_everywhere StoreBCap.CapOK StoreBCap.cap_step (StoreBCap.init_cap _ _ _) nodes edges order n H i ed E).
+Qed.
+
+(* C04 / C10 at the factory level: every configuration whose Buffer / Fleet edges start empty (or in
+   any state satisfying WN), every number of kernel steps: on every edge no space request is waiting
+   while the edge could grant it and no retrieval request is waiting while an unreserved item is
+   ready -- no lost wake-up anywhere in any factory (StoreBWeak.wn_step needs no side condition) *)
+Theorem no_lost_wakeup_everywhere nodes edges order n :
+  Forall (fun ed => StoreBWeak.WN (est ed)) edges ->
+  forall i ed, nth_error (wedges (FactoryInv.iter_fstep n (mk_world nodes edges order))) i = Some ed ->
+    StoreBProps.NoLost (est ed) /\ StoreBWeak.W (est ed).
+Proof.
+  intros H i ed E.
+  assert (StoreBWeak.WN (est ed)) as (_ & A & B).
+  { apply (store_invariant_everywhere StoreBWeak.WN StoreBWeak.wn_step (StoreBWeak.init_wn StoreB.KBuffer StoreB.FIFO 0 eq_refl) nodes edges order n H i ed E). }
+  split; auto.
 Qed.
